@@ -104,6 +104,8 @@ package html
 //@   loop * decreases len(l.r.buf) - l.r.pos
 
 //@ func Lexer.shiftXML
+// element names are looked up in lower case (the hash table holds lower-case names only)
+//@   callsite html.ToHash[F,C09] @lowered: forall(k, 0, len(arg0), !('A' <= arg0[k] && arg0[k] <= 'Z'))
 //@   preserves[S] hScan(l)
 //@   ensures[F,C09] @intag: l.inTag == old(l.inTag) && l.hasTmpl == old(l.hasTmpl)
 //@   ensures[T]  sameMem(result, l.r.buf[old(l.r.start):l.r.pos]) && cap(result) == len(result)
@@ -117,6 +119,8 @@ package html
 //@   loop * decreases len(l.r.buf) - l.r.pos
 
 //@ func Lexer.shiftStartTag
+// element names are looked up in lower case (the hash table holds lower-case names only)
+//@   callsite html.ToHash[F,C09] @lowered: forall(k, 0, len(arg0), !('A' <= arg0[k] && arg0[k] <= 'Z'))
 //@   preserves[S] hScan(l)
 //@   requires[F] l.inTag
 //@   ensures[F,C09] @lower: result0 == StartTagToken ==> forall(k, 0, len(l.text), !isUpperC(l.text[k]))
@@ -149,6 +153,8 @@ package html
 //@   loop * decreases len(l.r.buf) - l.r.pos
 
 //@ func Lexer.shiftRawText
+// element names are looked up in lower case (the hash table holds lower-case names only)
+//@   callsite html.ToHash[F,C09] @lowered: forall(k, 0, len(arg0), !('A' <= arg0[k] && arg0[k] <= 'Z'))
 //@   ensures[F,C15] @err-at-nul: l.err != old(l.err) ==> l.err != nil && errOff(l.err) == l.r.pos && old(l.r.pos) <= errOff(l.err) && l.r.buf[errOff(l.err)] == 0 && errOff(l.err) < len(l.r.buf)-1
 //@   loop * candidate[F] l.err == old(l.err)
 //@   preserves[S] hScan(l)
